@@ -507,6 +507,68 @@ def genNestedCases (idx : Nat) : Gen (List Case) := do
   pure [ graphCaseOf s!"C16-n{idx}-fwd" ("nested/fwd" ++ tag) lf mainPath fwd,
          graphCaseOf s!"C16-n{idx}-rev" ("nested/rev" ++ tag) lr mainPath rev ]
 
+/-! ## sequences: 2–3 evaluations over one file system that share ONE context (the root cache, and with
+`share` also the import cache).  Each evaluation must behave as in a fresh context: the root cache is a
+transparent memo (`root_cache_sound`), the import cache is transparent (`cache_transparent`).  With a
+shared import cache only the set of files opened shrinks: a cached script is read again, its imports not. -/
+
+def Layout.obsSeq (l : Layout) (share : Bool) : List Str → List (Str × Script) → List String
+  | _, [] => []
+  | done, (mp, m) :: r =>
+    let (_, st) := l.traceImports 60 [] { reads := [], done := done } (sourceDir mp) m.imports
+    let opens := ",".intercalate (dedupAdj (sortStrs (st.reads.map (fun cs => str (render true cs)))))
+    s!"open={opens}|out={l.run mp m}" :: l.obsSeq share (if share then st.done else []) r
+
+def genSeqCase (idx : Nat) : Gen Case := do
+  let (l0, _, _, _) ← genNested
+  -- half of the time no module at the base: scripts there (and above) have no module root at all
+  let dropOuter ← chance 1 2
+  let sentinels := if dropOuter then l0.sentinels.filter (· ≠ l0.root) else l0.sentinels
+  -- the same names at the root of the file system (what a root "" would resolve to)
+  let fsRoot : List Script :=
+    [ { path := ["data.arrai".toList], id := 900, imports := [] },
+      { path := ["util.arrai".toList], id := 901, imports := [] },
+      { path := ["lib.arrai".toList], id := 902, imports := [] } ]
+  let k ← (do let x ← rand 2; pure (x + 2))
+  let nMains ← (do let x ← rand 2; pure (x + 1))
+  let mut mains : List Script := []
+  for j in [0:nMains] do
+    let d ← pick (treeDirs ++ [[]])
+    let dir := l0.root ++ d
+    let n ← (do let x ← rand 3; pure (x + 1))
+    let mut imps : List (Bool × Str) := []
+    for _ in [0:n] do
+      let r ← rand 6
+      let nm ← pick ["data", "util", "lib", "data.arrai"]
+      let sub ← pick ["s", "u", "s/t"]
+      let i : Bool × Str :=
+        if r < 3 then (false, ("/" ++ nm).toList)                  -- module-rooted, whether or not there is a module
+        else if r == 3 then (true, ("/" ++ nm).toList)
+        else if r == 4 then (true, ("/" ++ sub ++ "/lib").toList)
+        else (false, ("/" ++ sub ++ "/" ++ nm).toList)
+      imps := i :: imps
+    mains := { path := dir ++ [(s!"m{j}.arrai").toList], id := j, imports := imps } :: mains
+  let mainsR := mains.reverse
+  let picks ← genList k (rand nMains)
+  -- make sure something is evaluated twice in a row now and then
+  let twice ← chance 1 2
+  let picks2 := if k ≥ 2 && twice then (picks.take 1 ++ picks.take 1 ++ picks.drop 2) else picks
+  let absolute ← chance 1 2
+  let cwdCs := levelComps cwdLevel
+  let l : Layout := { l0 with sentinels, scripts := mainsR ++ l0.scripts ++ fsRoot }
+  let seq : List (Str × Script) := picks2.map (fun i =>
+    let m := mainsR.getD i { path := [], id := 0, imports := [] }
+    let mp : Str := if !absolute && cwdCs <+: m.path then joinSlash (m.path.drop cwdCs.length) else render true m.path
+    (mp, m))
+  let share ← chance 1 2
+  let obs := " ;; ".intercalate (l.obsSeq share [] seq)
+  let files := l.scripts.flatMap (fun s => [str (render true s.path), scriptSrc s]) ++
+    l.sentinels.flatMap (fun d => [str (render true (d ++ [sentinel])), "module m\n"])
+  pure { id := s!"C16-q{idx}", cls := "good", kind := "fsseq",
+         stratum := "seq/" ++ (if share then "shared-imports" else "shared-roots") ++ (if dropOuter then "/nomod-base" else ""),
+         model := obs, spec := obs,
+         payload := [if share then "1" else "0", toString seq.length] ++ seq.flatMap (fun e => [str e.1, scriptSrc e.2]) ++ files }
+
 /-! ## corpus: witnesses of the repaired defects and minimised past failures -/
 def mkScript (path : String) (id : Nat) (imports : List (Bool × String)) : Script :=
   { path := (splitSlash path.toList).filter (· ≠ []), id, imports := imports.map (fun i => (i.1, i.2.toList)) }
@@ -575,6 +637,11 @@ def gen (seed n : Nat) (thorough : Bool) : List Case := Id.run do
     let (cs, _) := (genNestedCases i).run (seedOf seed (1670000 + i))
     for c in cs do
       out := c :: out
+  -- sequences of evaluations sharing one context
+  let nSeq := if thorough then 5000 else n * 300 / 5300
+  for i in [0:nSeq] do
+    let (c, _) := (genSeqCase i).run (seedOf seed (1690000 + i))
+    out := c :: out
   if thorough then
     -- exhaustive: every string up to length 4 in every configuration; length 5 to 7 in two
     -- configurations each (rotating); every string also through pathfn
